@@ -969,7 +969,7 @@ func isHistoryLen(p *eng.Prog, v ssa.Value, fHist *types.Var, depth int) bool {
 // alone visits N−1 slots, one starting at S none.
 func (c *Ctx) c15RingWalks(hubFns []*ssa.Function) {
 	r, p := c.R, c.P
-	r.Rule("C15/HISTORY/full-cycle", "every loop in pkg/msghub that walks a *ring.Ring with Next() until it is back at its start and reads slot values inspects all N slots (bottom-tested from the start, or top-tested from start.Next() with the start inspected separately, or a counting loop bounded by Len())")
+	r.Rule("C15/HISTORY/full-cycle", "every loop in pkg/msghub that walks a *ring.Ring with Next() (or Prev()) until it is back at its start and reads slot values inspects all N slots (bottom-tested from the start, or top-tested from start.Next() with the start inspected separately, or a counting loop bounded by Len())")
 	isRing := func(t types.Type) bool {
 		pt, ok := t.(*types.Pointer)
 		if !ok {
@@ -978,9 +978,23 @@ func (c *Ctx) c15RingWalks(hubFns []*ssa.Function) {
 		n, ok := pt.Elem().(*types.Named)
 		return ok && n.Obj().Pkg() != nil && n.Obj().Pkg().Path() == "container/ring" && n.Obj().Name() == "Ring"
 	}
+	// a walk may go forwards (Next) or backwards (Prev); the slot count is the same either
+	// way as long as every step of the walk goes the same way
+	stepDir := ""
+	stepOf := func(v ssa.Value) (ssa.Value, string) {
+		if call, ok := v.(*ssa.Call); ok {
+			switch eng.CalleeName(call.Common()) {
+			case "(*container/ring.Ring).Next":
+				return call.Call.Args[0], "Next"
+			case "(*container/ring.Ring).Prev":
+				return call.Call.Args[0], "Prev"
+			}
+		}
+		return nil, ""
+	}
 	nextOf := func(v ssa.Value) ssa.Value {
-		if call, ok := v.(*ssa.Call); ok && eng.CalleeName(call.Common()) == "(*container/ring.Ring).Next" {
-			return call.Call.Args[0]
+		if base, d := stepOf(v); base != nil && (stepDir == "" || d == stepDir) {
+			return base
 		}
 		return nil
 	}
@@ -1010,14 +1024,21 @@ func (c *Ctx) c15RingWalks(hubFns []*ssa.Function) {
 				}
 				var init ssa.Value
 				adv := false
+				stepDir = ""
 				for _, e := range phi.Edges {
-					if nextOf(e) == ssa.Value(phi) {
+					if base, d := stepOf(e); base == ssa.Value(phi) {
 						adv = true
+						stepDir = d
 					} else {
 						init = e
 					}
 				}
 				if !adv || init == nil {
+					continue
+				}
+				if base, d := stepOf(init); base != nil && d != stepDir {
+					n++
+					r.Undecided("C15/HISTORY/full-cycle", "walk@"+shortFn(fn), p.InstrPos(phi), "ring walk that starts one step in one direction and advances in the other: completeness not decided")
 					continue
 				}
 				// nodes of this iteration: phi (offset 0) and every Next(phi) (offset 1)
